@@ -155,6 +155,9 @@ func TestWorker(t *testing.T) {
 			if hp, ok := r.(harnessPanic); ok {
 				msg = fmt.Sprintf("%v\n%s", hp.val, hp.stack)
 			}
+			if firstHarnessPanic != "" {
+				msg = "first machinery panic: " + firstHarnessPanic + "\n--- reported as: " + msg
+			}
 			fmt.Printf("HARNESS-ERROR %s\n", msg)
 			if *fOut != "" {
 				writeJSON(*fOut, WorkerResult{Property: *fProp, Seed: *fSeed, HarnessErr: msg})
